@@ -26,7 +26,7 @@ namespace internal {
 template <typename T>
 constexpr auto round_int(T const x) noexcept -> T
 {
-    return static_cast<T>(find_whole(x));
+    return floor_check(x) + (x - floor_check(x) >= T(0.5) ? T(1) : T(0));
 }
 
 template <typename T>
